@@ -703,7 +703,7 @@ def translate_fn(f):
             else:
                 raise Exception('unhandled: ' + ln)
     # emit
-    args = ', '.join('%s %s' % (ctype(t), f.vname(n)) for t, n in f.params) or 'void'
+    args = ', '.join(['%s %s' % (ctype(t), f.vname(n)) for t, n in f.params] + (['...'] if f.va else [])) or 'void'
     if not f.is_thread:
         emit('%s %s(%s) {' % (ctype(f.rt), cname(f.name), args))
         for n, t in f.vals.items(): emit('  %s %s;' % (ctype(t), f.vname(n)))
@@ -855,7 +855,19 @@ fobjs = [Fn(h, b) for h, b in funcs]
 body_out = []
 for f in fobjs:
     out = []
-    translate_fn(f)
+    try:
+        translate_fn(f)
+    except Exception as _e:
+        if f.is_thread: raise
+        # not translatable (variadic callee using va_arg, inline asm, ...): keep the symbol, but make
+        # reaching it an INTERNAL failure so that it can never silently weaken a verdict
+        out = []
+        _args_s = ', '.join(['%s %s' % (ctype(t), f.vname(n)) for t, n in f.params] + (['...'] if f.va else [])) or 'void'
+        emit('/* NOT TRANSLATED: %s (%s) */' % (f.name, str(_e).replace('*/', '* /')[:120]))
+        emit('%s %s(%s) {' % (ctype(f.rt), cname(f.name), _args_s))
+        emit('  VP_INTERNAL_FAIL("INTERNAL: untranslated function %s reached");' % cname(f.name))
+        if f.rt.k != 'void': emit('  { %s vp_z; memset(&vp_z, 0, sizeof vp_z); return vp_z; }' % ctype(f.rt))
+        emit('}')
     body_out.append('\n'.join(out))
 
 hdr = ['/* generated by vp/ll2c.py -- do not edit */', '#include <stdint.h>', '#include <stddef.h>', '#include <string.h>', '#include <stdlib.h>',
@@ -869,11 +881,12 @@ for n, rest in globs:
     r = re.sub(r'^(global|constant)\s+', '', re.sub(r'^(thread_local\s+)?', '', r))
     try:
         t, p = tokenize_type(r, 0)
-        if r[p:].strip() == '' : init = None
+        if r[p:].strip() == '' or re.match(r'^\s*,', r[p:]): init = None
         else:
             dummy = Fn('define void @__dummy()', [])
             init, _ = parse_init(r, p, t, dummy)
-        gtxt.append((n, t, init))
+        if t.k == 'arr': ctype(t)          # register the wrapper struct before struct emission
+        gtxt.append((n, t, 'EXTERNAL' if re.match(r'^\s*external\b', rest) or ' external ' in (' ' + rest.split('global')[0].split('constant')[0]) else init))
     except Exception as e:
         gtxt.append((n, None, 'ERR ' + str(e)))
 # order struct definitions: emit named structs (by-value dependencies need order: do simple DFS)
@@ -919,9 +932,13 @@ for n, (rt, ats, va) in externs.items():
     print('extern %s %s(%s);' % (ctype(rt), cname(n), ', '.join([ctype(a) for a in ats] + (['...'] if va else [])) or 'void'))
 for f in fobjs:
     if not f.is_thread:
-        print('%s %s(%s);' % (ctype(f.rt), cname(f.name), ', '.join(ctype(t) for t, _ in f.params) or 'void'))
+        print('%s %s(%s);' % (ctype(f.rt), cname(f.name), ', '.join([ctype(t) for t, _ in f.params] + (['...'] if f.va else [])) or 'void'))
+for n, t, init in gtxt:      # forward declarations (initializers may reference later globals)
+    if t is None: continue
+    print('extern %s;' % (('%s G_%s' % (ctype(t), cname(n))) if t.k == 'arr' else field_decl(t, 'G_' + cname(n))))
 for n, t, init in gtxt:
     if t is None: print('/* global %s: %s */' % (n, init)); continue
+    if init == 'EXTERNAL': continue
     if t.k == 'arr':
         print('%s G_%s%s;' % (ctype(t), cname(n), (' = { ' + init + ' }') if init and init != 'ZEROINIT' else ''))
     else:
